@@ -279,7 +279,30 @@ func runC01(r *chk.Run) {
 		}
 		r.Sample("wide", map[string]interface{}{"table": "every supported column type", "value_sets": wideVariants})
 	}
+	// (4) binding to real sockets: every sequence up to depth 2 (3 in the thorough
+	// tier) again over loopback TCP with the driver's standard dialer
+	ntcp := 0
+	if TCPAvailable() {
+		td := 2
+		if r.Thorough() {
+			td = 3
+		}
+		Sequences(alpha, td, func(seq []string) {
+			for ci, cfg := range cfgs {
+				if ci%5 != len(seq)%5 {
+					continue
+				}
+				if hr.add(HistInput{Units: append([]string{}, seq...), Cfg: cfg, Oracle: "fidelity", TCP: true}) {
+					ntcp++
+				}
+			}
+		})
+		r.Set("tcp_loopback_histories", ntcp)
+	} else {
+		r.Set("tcp_loopback_histories", "skipped: no loopback listener available")
+	}
 	hr.finish()
+	r.Validated(int64(ntcp))
 	r.Set("alphabet", alpha)
 	r.Set("depth", depth)
 	r.Set("sequences_x_configurations", count)
